@@ -206,11 +206,13 @@ def cases(tier, seed):
                 "ard": ard, "warp": warp, "mean": mean, "transform": tr, "points": sz["crit_points"],
                 "enc": "positive" if rng.random() < 0.15 else "logarithm",
                 # documented option of create_lbfgs_arguments / OptimizationConfig.verbose / opt_verbose
-                "verbose": bool((i // len(CELLS)) % 2),
+                "verbose": bool(((i // len(CELLS)) + (i // len(CELLS)) // 8) % 2),
                 # BoxCoxTargetTransform(initial_boxcox_lambda=...): None = default 0.5
                 "boxcox_init": [None, 0.0, None, 1.0, None, 0.0, -0.5, None][(i // len(CELLS)) % 8],
             }
         )
+        if out[-1]["transform"] == "boxcox" and (i // len(CELLS)) % 8 == 5:
+            out[-1]["n"] = int(rng.integers(2, 5))  # fewer than 5 targets: lambda stays fixed at its initial value 0.0
     for i in range(sz["acq"]):
         ard, warp, mean, tr = CELLS[(i * 7 + i // 16) % len(CELLS)]
         npend = int(rng.integers(0, 5)) if i % 4 else int(rng.integers(1, 5))
